@@ -329,7 +329,7 @@ PROPS["C13"]["lanes"] += [
 ]
 PROPS["C13"]["level_text"] += " Lanes: the occupancy patterns; plus the cmdlab command and core workloads under AddressSanitizer + LeakSanitizer, where every case ends by dropping its Command / Core / Bridge with whatever work is outstanding: any leak report at exit is a violation."
 PROPS["C12"]["lanes"] += [
-    lane("bridgefuzz-asan", "cmdlab", "bridgefuzz", "asan", "C12", {"budget": 60}, {"budget": 8000}, 2, 16),
+    lane("bridgefuzz-asan", "cmdlab", "bridgefuzz", "asan", "C12", {"budget": 60}, {"budget": 3200}, 2, 16),
     lane("bridgefuzz-miri", "cmdlab", "bridgefuzz", "miri", "C12", {"budget": 4}, {"budget": 32}, 4, 16, tiers=("thorough",)),
 ]
 PROPS["C12"]["level_text"] += " Lanes: native (with the counting allocator), AddressSanitizer, and Miri in thorough (undefined behaviour on malformed input in the serde / bincode / erased-serde stack)."
